@@ -203,6 +203,50 @@ def check_harvested(r):
     return None, src
 
 
+NOEXCEPTS = ["", " noexcept", " noexcept(true)", " noexcept(noexcept(g()))", " noexcept(sizeof(int) > 2)"]
+CONVS = ["", "__stdcall ", "__cdecl ", "__fastcall "]
+
+
+def extras_sources(rng, n):
+    """declarations whose types carry the extras of function types: exception specifications, trailing return types,
+    calling conventions, varargs, in every combination, as typedef'd function types, function pointers and template arguments"""
+    out = []
+    for _ in range(n):
+        ret = " ".join(decl.print_decl(c02.rich_type(rng, 1) or ('B', 'int', False, False), None))
+        if ret.startswith("void") and rng.random() < 0.5:
+            ret = "int"
+        ps = []
+        for i in range(rng.choice([0, 1, 2])):
+            t = c02.rich_type(rng, rng.choice([0, 1, 2]))
+            if t is None or not decl.var_ok(t):
+                t = ('B', 'int', False, False)
+            ps.append(" ".join(decl.print_decl(t, rng.choice([None, 'a%d' % i]))))
+        if rng.random() < 0.2:
+            ps.append("...")
+        params = ", ".join(ps)
+        ne = rng.choice(NOEXCEPTS)
+        trailing = rng.random() < 0.5
+        form = rng.choice(["fn", "fn", "ptr", "targ"])
+        name = "F%d" % len(out)
+        if form == "fn":
+            if trailing:
+                out.append("typedef auto %s(%s)%s -> %s;" % (name, params, ne, ret))
+            else:
+                out.append("typedef %s %s(%s)%s;" % (ret, name, params, ne))
+        elif form == "ptr":
+            conv = rng.choice(CONVS)
+            if trailing:
+                out.append("auto (%s*%s)(%s) -> %s;" % (conv, name, params, ret))
+            else:
+                out.append("%s (%s*%s)(%s);" % (ret, conv, name, params))
+        else:
+            if trailing:
+                out.append("std::function<auto(%s) -> %s> %s;" % (params, ret, name))
+            else:
+                out.append("std::function<%s(%s)> %s;" % (ret, params, name))
+    return out
+
+
 def harvest_ok(r):
     """restrict to what format_decl is documented to render: skip anonymous / auto-named pieces"""
     txt = r.format()
@@ -241,6 +285,7 @@ def search(ctx, boost=False):
     srcs = list(impl.corpus())
     for _ in range(ctx.scale(20, 400)):
         srcs.append(blocks.gen_program(rng, rng.choice([4, 10, 25])).source())
+    srcs += extras_sources(rng, ctx.scale(150, 3000))
     seen = set()
     for src in srcs:
         try:
